@@ -737,4 +737,69 @@ example :
     (step scCfg (step { scCfg with scramFinish := 1 } scS4.st scChallenge).st ⟨num '9' '0' '6', [], jn⟩).st.scramStep = 0 := by
   decide
 
+/-! ### the fallback nicks of `_getNextNick`: the candidate space is not exhausted
+
+Once the alternates are used up, `Irc._getNextNick` takes the configured nick, padded with backquotes to at
+least four characters, and keeps replacing a randomly chosen position by a random digit until the result is
+not in `triedNicks` (the model sends `Out.nickRandom` for it).  Whatever the padded nick looks like at that
+moment, the 10 000 strings that differ from it in the last four positions, these being digits, are all
+reachable by such replacements and pairwise distinct: as long as fewer than 10 000 nicks have been tried on
+this connection — `triedNicks` grows by exactly one per call, i.e. per nick refusal — one of them is fresh, so
+the loop ends (with probability one).  Restricting the replacements to a single position (10 candidates) is
+what the seeded change C07-r3m3 did: `lastDigit_exhausted` shows that space running out. -/
+
+def digitChar (d : Nat) : Char := Char.ofNat (48 + d)
+
+/-- the padded nick with its last four characters replaced by the decimal digits of `k` -/
+def withDigits (l : Str) (k : Nat) : Str :=
+  l.take (l.length - 4) ++ [digitChar (k / 1000 % 10), digitChar (k / 100 % 10), digitChar (k / 10 % 10), digitChar (k % 10)]
+
+theorem digitChar_inj : ∀ a, a < 10 → ∀ b, b < 10 → digitChar a = digitChar b → a = b := by decide
+
+theorem withDigits_inj (l : Str) {a b : Nat} (ha : a < 10000) (hb : b < 10000) (h : withDigits l a = withDigits l b) : a = b := by
+  unfold withDigits at h
+  have h' := List.append_cancel_left h
+  simp only [List.cons.injEq, and_true] at h'
+  obtain ⟨h3, h2, h1, h0⟩ := h'
+  have e3 := digitChar_inj _ (Nat.mod_lt _ (by decide)) _ (Nat.mod_lt _ (by decide)) h3
+  have e2 := digitChar_inj _ (Nat.mod_lt _ (by decide)) _ (Nat.mod_lt _ (by decide)) h2
+  have e1 := digitChar_inj _ (Nat.mod_lt _ (by decide)) _ (Nat.mod_lt _ (by decide)) h1
+  have e0 := digitChar_inj _ (Nat.mod_lt _ (by decide)) _ (Nat.mod_lt _ (by decide)) h0
+  omega
+
+/-- pigeonhole: an injective enumeration of `n` candidates is not covered by a shorter list -/
+theorem fresh_candidate (f : Nat → Str) : ∀ (n : Nat) (tried : List Str),
+    (∀ a, a < n → ∀ b, b < n → f a = f b → a = b) → tried.length < n → ∃ k, k < n ∧ f k ∉ tried := by
+  intro n
+  induction n with
+  | zero => intro tried _ h; omega
+  | succ n ih =>
+    intro tried hinj hlen
+    by_cases hm : f n ∈ tried
+    · have hpos : 0 < tried.length := List.length_pos_of_mem hm
+      have hl : (tried.erase (f n)).length < n := by rw [List.length_erase_of_mem hm]; omega
+      obtain ⟨k, hk, hf⟩ := ih (tried.erase (f n)) (fun a ha b hb => hinj a (by omega) b (by omega)) hl
+      refine ⟨k, by omega, fun hc => hf ?_⟩
+      have hne : f k ≠ f n := fun he => by have := hinj k (by omega) n (by omega) he; omega
+      exact (List.mem_erase_of_ne hne).mpr hc
+    · exact ⟨n, by omega, hm⟩
+
+/-- For every padded nick and every set of fewer than 10 000 tried nicks there is a digit variation of the nick
+(last four positions) that has not been tried. -/
+theorem nick_space_not_exhausted (l : Str) (tried : List Str) (h : tried.length < 10000) :
+    ∃ k, k < 10000 ∧ withDigits l k ∉ tried :=
+  fresh_candidate (withDigits l) 10000 tried (fun _ ha _ hb he => withDigits_inj l ha hb he) h
+
+/-- the variations of the last character only: ten candidates -/
+def lastDigit (l : Str) (d : Nat) : Str := l.take (l.length - 1) ++ [digitChar (d % 10)]
+
+/-- … and eleven refusals later every one of them has been tried: the loop of the seeded change never ends -/
+theorem lastDigit_exhausted (l : Str) :
+    ∃ tried : List Str, tried.length = 10 ∧ ∀ d, lastDigit l d ∈ tried := by
+  refine ⟨(List.range 10).map (lastDigit l), by simp, fun d => ?_⟩
+  simp only [List.mem_map, List.mem_range]
+  exact ⟨d % 10, Nat.mod_lt _ (by decide), by simp [lastDigit]⟩
+
+example : withDigits "bot`".toList 42 = "0042".toList ∧ withDigits "limnoria".toList 7 = "limn0007".toList := by decide
+
 end C08
